@@ -77,7 +77,7 @@ theorem hasKey_iff {k : Key} {es : List (Key × Value)} : hasKey k es = true ↔
   lookup_isSome_iff
 
 /-- What `lookup` returns is an entry of the list. -/
-theorem lookup_mem {k : Key} {v : Value} {es : List (Key × Value)} (h : lookup k es = some v) :
+theorem lookup_mem_entry {k : Key} {v : Value} {es : List (Key × Value)} (h : lookup k es = some v) :
     (k, v) ∈ es := by
   induction es with
   | nil => simp at h
@@ -177,7 +177,7 @@ theorem replaceVal_of_none {k : Key} {es : List (Key × Value)} (h : lookup k es
 
 /-! ### `setInsert` -/
 
-theorem mem_setInsert {x k : Key} {s : List Key} : x ∈ setInsert k s ↔ x = k ∨ x ∈ s := by
+theorem mem_setInsert_or {x k : Key} {s : List Key} : x ∈ setInsert k s ↔ x = k ∨ x ∈ s := by
   unfold setInsert
   by_cases h : k ∈ s
   · simp only [h, if_true]
@@ -192,13 +192,13 @@ theorem mem_setInsert {x k : Key} {s : List Key} : x ∈ setInsert k s ↔ x = k
     · intro hx; exact hx.symm
 
 theorem mem_setInsert_self (k : Key) (s : List Key) : k ∈ setInsert k s :=
-  mem_setInsert.2 (Or.inl rfl)
+  mem_setInsert_or.2 (Or.inl rfl)
 
 theorem mem_setInsert_of_mem {x : Key} (k : Key) {s : List Key} (h : x ∈ s) : x ∈ setInsert k s :=
-  mem_setInsert.2 (Or.inr h)
+  mem_setInsert_or.2 (Or.inr h)
 
 theorem mem_setInsert_ne {x k : Key} (hne : x ≠ k) {s : List Key} : x ∈ setInsert k s ↔ x ∈ s := by
-  rw [mem_setInsert]; simp [hne]
+  rw [mem_setInsert_or]; simp [hne]
 
 theorem setInsert_nodup {k : Key} {s : List Key} (h : s.Nodup) : (setInsert k s).Nodup := by
   unfold setInsert
@@ -482,12 +482,12 @@ theorem insertImpl_ck_mono {m m' : Mapping} {k k0 : Key} {v : Value} {fc fo : Bo
   split at h
   · injection h with h; subst h
     dsimp only
-    split <;> split <;> simp [mem_setInsert, hk]
+    split <;> split <;> simp [mem_setInsert_or, hk]
   · split at h
     · cases h
     · injection h with h; subst h
       dsimp only
-      split <;> simp [mem_setInsert, hk]
+      split <;> simp [mem_setInsert_or, hk]
 
 /-- Override flags are never removed. -/
 theorem insertImpl_ok_mono {m m' : Mapping} {k k0 : Key} {v : Value} {fc fo : Bool}
@@ -496,7 +496,7 @@ theorem insertImpl_ok_mono {m m' : Mapping} {k k0 : Key} {v : Value} {fc fo : Bo
   split at h
   · injection h with h; subst h
     dsimp only
-    split <;> split <;> simp [mem_setInsert, hk]
+    split <;> split <;> simp [mem_setInsert_or, hk]
   · split at h
     · cases h
     · injection h with h; subst h
